@@ -17,25 +17,27 @@ EXTENDS NamingProps
 \* one row per chromosome or unloc scaffold (rank 1 or 2) of every curated assembly, in output order
 ReportSubjects(T) == SelectSeq([o \in 1..Len(T.out) |-> o], LAMBDA o : T.out[o].rank \in {1, 2} /\ T.out[o].asm \in CuratedAsms(T))
 AsmLabel(a) == IF a = "" THEN "Primary" ELSE a
-ReportRowOk(T, row, o) ==
-  LET s == T.out[o]  g == GroupOfOut(T, o) IN
-  /\ row.asm = AsmLabel(s.asm)
-  /\ row.name = s.name
-  /\ IsMapped(T, o)
-  \* "chromosome" is the name of the chromosome the scaffold belongs to, without the autosome prefix
-  /\ Pfx(T) \o row.chr = NameOfGroup(T, g)
-  \* localised = false exactly for unlocalised scaffolds
-  /\ row.loc = (IF RoleOfOut(T, o) = "unloc" THEN "false" ELSE "true")
-  /\ row.len = SumLen(s.rows)
-  /\ row.lmg = SumLen(Frags(s.rows))
-\* the Pretext scaffold column: the same for a chromosome and its unlocs, different between chromosomes
-ReportOrigOk(T) == \A q1, q2 \in 1..Len(T.report) :
-  LET sq == ReportSubjects(T) IN (GroupOfOut(T, sq[q1]) = GroupOfOut(T, sq[q2])) <=> (T.report[q1].orig = T.report[q2].orig)
+\* (group and role of every subject are computed once per trace: G[q], Rl[q])
 ChrReportMatches(T) ==
-  LET sq == ReportSubjects(T) IN
+  LET sq == ReportSubjects(T)
+      Mp == [q \in 1..Len(sq) |-> IsMapped(T, sq[q])]
+      G == [q \in 1..Len(sq) |-> IF Mp[q] THEN GroupOfOut(T, sq[q]) ELSE 0]
+      Rl == [q \in 1..Len(sq) |-> IF Mp[q] THEN RoleOfOut(T, sq[q]) ELSE "none"]
+      RowOk(q) == LET row == T.report[q]  s == T.out[sq[q]] IN
+        /\ row.asm = AsmLabel(s.asm)
+        /\ row.name = s.name
+        /\ Mp[q]
+        \* "chromosome" is the name of the chromosome the scaffold belongs to, without the autosome prefix
+        /\ Pfx(T) \o row.chr = NameOfGroup(T, G[q])
+        \* localised = false exactly for unlocalised scaffolds
+        /\ row.loc = (IF Rl[q] = "unloc" THEN "false" ELSE "true")
+        /\ row.len = SumLen(s.rows)
+        /\ row.lmg = SumLen(Frags(s.rows))
+  IN
   /\ Len(T.report) = Len(sq)
-  /\ \A q \in 1..Len(sq) : ReportRowOk(T, T.report[q], sq[q])
-  /\ ReportOrigOk(T)
+  /\ \A q \in 1..Len(sq) : RowOk(q)
+  \* the Pretext scaffold column: the same for a chromosome and its unlocs, different between chromosomes
+  /\ \A q1, q2 \in 1..Len(sq) : (G[q1] = G[q2]) <=> (T.report[q1].orig = T.report[q2].orig)
 
 \* ------------------------------------------------------------------ per-assembly breaks and joins
 \* (assembly_stats.make_stats: "Breaks are junctions which were in the input, but are not in this assembly ... intersected with the total
@@ -55,16 +57,20 @@ PasBreaksAddUp(T) == (\A k \in Range(T.inkeys) : InAdj(T, k) = {} \/ k \in PasKe
   FoldSet(LAMBDA k, acc : acc + PasBreaks(T, k), 0, PasKeys(T)) = T.stats.breaks
 
 \* ------------------------------------------------------------------ sanity warnings
-\* number of autosomes (numbered chromosomes, unlocs not counted) per curated assembly
-AutosomeCount(T, a) == Cardinality({o \in Range(AsmSeq(T, a)) : T.out[o].rank = 1 /\ IsMapped(T, o) /\ RoleOfOut(T, o) = "main"})
-AsmsWithAutosomes(T) == {a \in CuratedAsms(T) : AutosomeCount(T, a) > 0}
-MismatchExpected(T) == \E a, b \in AsmsWithAutosomes(T) : AutosomeCount(T, a) # AutosomeCount(T, b)
-\* sequence length of a chromosome: its scaffold plus its unlocs, gaps not counted
-ChrSeqLen(T, a, g) == FoldSet(LAMBDA o, acc : acc + SumLen(Frags(T.out[o].rows)), 0,
-                             {o \in Range(AsmSeq(T, a)) : T.out[o].rank \in {1, 2} /\ IsMapped(T, o) /\ GroupOfOut(T, o) = g})
-ChrLens(T) == {ChrSeqLen(T, T.out[o].asm, GroupOfOut(T, o)) : o \in {x \in 1..Len(T.out) : T.out[x].rank \in {1, 2} /\ T.out[x].asm # "Haplotig" /\ IsMapped(T, x)}}
-LargeExpected(T) == IF ChrLens(T) = {} THEN {} ELSE
-  {T.out[o].name : o \in {x \in 1..Len(T.out) : T.out[x].asm = "Haplotig" /\ SumLen(Frags(T.out[x].rows)) > Min(ChrLens(T))}}
-SanityMatches(T) == /\ (T.sanity.mismatch = 1) <=> MismatchExpected(T)
-                    /\ Range(T.sanity.large) = LargeExpected(T)
+\* per output scaffold, once per trace: is it a piece of the map, of which group, in which role; its sequence length
+OutInfo(T) == [o \in 1..Len(T.out) |-> LET mp == IsMapped(T, o) IN
+                 [mp |-> mp, g |-> IF mp THEN GroupOfOut(T, o) ELSE 0, role |-> IF mp THEN RoleOfOut(T, o) ELSE "none", fl |-> SumLen(Frags(T.out[o].rows))]]
+SanityMatches(T) ==
+  LET I == OutInfo(T)
+      \* number of autosomes (numbered chromosomes, unlocs not counted) per curated assembly
+      AutosomeCount(a) == Cardinality({o \in 1..Len(T.out) : T.out[o].asm = a /\ T.out[o].rank = 1 /\ I[o].mp /\ I[o].role = "main"})
+      WithAutosomes == {a \in CuratedAsms(T) : AutosomeCount(a) > 0}
+      MismatchExpected == \E a, b \in WithAutosomes : AutosomeCount(a) # AutosomeCount(b)
+      \* sequence length of a chromosome: its scaffold plus its unlocs, gaps not counted
+      Chrs == {<<T.out[o].asm, I[o].g>> : o \in {x \in 1..Len(T.out) : T.out[x].rank \in {1, 2} /\ T.out[x].asm # "Haplotig" /\ I[x].mp}}
+      ChrSeqLen(c) == FoldSet(LAMBDA o, acc : acc + I[o].fl, 0, {o \in 1..Len(T.out) : T.out[o].asm = c[1] /\ T.out[o].rank \in {1, 2} /\ I[o].mp /\ I[o].g = c[2]})
+      ChrLens == {ChrSeqLen(c) : c \in Chrs}
+      LargeExpected == IF ChrLens = {} THEN {} ELSE {T.out[o].name : o \in {x \in 1..Len(T.out) : T.out[x].asm = "Haplotig" /\ I[x].fl > Min(ChrLens)}}
+  IN /\ (T.sanity.mismatch = 1) <=> MismatchExpected
+     /\ Range(T.sanity.large) = LargeExpected
 ====
